@@ -1120,6 +1120,77 @@ type Ordered interface {
 """
 flagsets("renameorder", "adv/renameorder", ["Ordered"])
 
+# round 7: constraints that embed comparable next to a type term (either order) or a named constraint;
+# a mock named exactly like its interface in another package; type names that are predeclared
+# function names; a package mentioned twice by one parameter, the second time with a type argument
+# from a package named nowhere else; named results whose names are types of the same package
+FILES["adv/round7/a.go"] = """package round7
+
+import (
+	"time"
+
+	"example.com/m/dep/gen"
+)
+
+type StrKey interface {
+	comparable
+	~string
+}
+
+type KeyStr interface {
+	~string | ~int64
+	comparable
+}
+
+type Number interface{ ~int | ~float64 }
+
+type Store[K StrKey, V any] interface {
+	Get(k K) (V, bool)
+}
+
+type Store2[K KeyStr, N interface {
+	Number
+	String() string
+}] interface {
+	Put(k K, n N)
+}
+
+type Client interface {
+	Do(req string) (string, error)
+}
+
+type Max int
+type Min int
+type Len int
+type Close struct{}
+type New func()
+type Cap []int
+
+type Builtins interface {
+	Limits(Max, Min, Len) Cap
+	Hooks(Close, New, []Max, map[Min]Len)
+}
+
+type Tracker interface {
+	Track(m map[gen.T]gen.Box[time.Duration], again gen.Pair[string, gen.Box[time.Month]])
+}
+
+type node struct{}
+
+type Tree interface {
+	Find(key string) (node *node, parent *node)
+	Walk(fn func(*node) bool) (visited int, node node)
+}
+"""
+FILES["adv/round7/mocks/doc.go"] = "package mocks\n"
+flagsets("round7-store", "adv/round7", ["Store"])
+case("round7-store2", "adv/round7", ["Store2"], skip=True)
+case("round7-client-same", "adv/round7", ["Client:Client"], pkg="mocks")
+case("round7-client-two", "adv/round7", ["Client:Client", "Client:Other"], pkg="mocks", stub=True, resets=True)
+flagsets("round7-builtins", "adv/round7", ["Builtins"], modes=("",))
+flagsets("round7-tracker", "adv/round7", ["Tracker"])
+flagsets("round7-tree", "adv/round7", ["Tree"], modes=("",))
+
 
 def write_all(root, write):
     for rel, (name, decls) in EXTRA_DEPS.items():
